@@ -45,15 +45,24 @@ def handleU (st : St) (n : Nat) (toks : List String) : Result := Id.run do
   if errName outF.err != ierr then
     ok := false
     outs := outs ++ [s!"DIVERGE {n} U field=err model={errDetail outF.err} impl={ierr}"]
+    if (errName outF.err == "none") != (ierr == "none") then
+      outs := outs ++ [s!"DIVERGE {n} U field=accept model={errDetail outF.err} impl={ierr}"]
   if optShow outF.ret != iret.show then
     ok := false
     outs := outs ++ [s!"DIVERGE {n} U field=ret model={optShow outF.ret} impl={iret.show}"]
-  if faults == "" && mpost.show != ipost.show then
+  if mpost.show != ipost.show then
     ok := false
     outs := outs ++ [s!"DIVERGE {n} U field=post model={mpost.show} impl={ipost.show}"]
   if ictr != "?" && ctrShow outF.ctr != ictr then
     ok := false
     outs := outs ++ [s!"DIVERGE {n} U field=ctr model={ctrShow outF.ctr} impl={ictr}"]
+  let icalls := (get "calls").getD "?"
+  let mcalls := match Wit.callScript outF with
+    | [] => "-"
+    | l => ",".intercalate (l.map (fun c => match c with | .W => "W" | .G => "G" | .S => "S" | .C => "C"))
+  if icalls != "?" && icalls != mcalls then
+    ok := false
+    outs := outs ++ [s!"DIVERGE {n} U field=calls model={mcalls} impl={icalls}"]
   if ok then
     st := { st with nOK := st.nOK + 1 }
     outs := outs ++ [s!"OK {n}"]
@@ -74,12 +83,39 @@ def handleU (st : St) (n : Nat) (toks : List String) : Result := Id.run do
     if ctrShow exp != ictr then
       let r := fail st n "C20" s!"counters moved {ictr} for verdict {ierr}, expected {ctrShow exp}"
       st := r.st; outs := outs ++ r.out
+  -- C07: storage failures
+  let hang := (get "hang").getD "0"
+  if hang != "0" then
+    let r := fail st n "C07" s!"operation did not complete (hang={hang}) after faults={faults}: a storage transaction was left open"
+    st := r.st; outs := outs ++ r.out
+  if faults.contains 'R' && ierr == "none" then
+    let r := fail st n "C07" "a failed read of the previous checkpoint was treated as 'no previous checkpoint' (update accepted)"
+    st := r.st; outs := outs ++ r.out
+  if faults != "" || icalls != "?" then
+    if ierr == "none" then
+      match iret with
+      | .val rb =>
+        if ipost != .val rb then
+          let r := fail st n "C07" s!"update reported as accepted under faults={faults} but a following read does not return the checkpoint it returned"
+          st := r.st; outs := outs ++ r.out
+      | _ => pure ()
+    if (faults.contains 'W' || faults.contains 'R' || faults.contains 'S') && ierr == "none" && (faults.contains 'W' || faults.contains 'S') then
+      let r := fail st n "C07" s!"update reported as accepted although storage call failed (faults={faults})"
+      st := r.st; outs := outs ++ r.out
+    if icalls != "?" then
+      let cs := icalls.splitOn ","
+      let nW := (cs.filter (· == "W")).length
+      let nC := (cs.filter (· == "C")).length
+      let expC := if faults.contains 'W' then 0 else nW
+      if nC != expC then
+        let r := fail st n "C07" s!"storage handle not closed exactly once: calls={icalls} faults={faults}"
+        st := r.st; outs := outs ++ r.out
   -- C03: refusal leaves everything unchanged and returns nothing or the stored checkpoint
   if ierr != "none" then
     if allpre != allpost then
       let r := fail st n "C03" s!"state changed by refused update ({ierr})"
       st := r.st; outs := outs ++ r.out
-    if faults == "" && ipost.show != pre.show then
+    if ipost.show != pre.show then
       let r := fail st n "C03" s!"stored checkpoint changed by refused update ({ierr})"
       st := r.st; outs := outs ++ r.out
     match iret with
@@ -127,7 +163,7 @@ def handleU (st : St) (n : Nat) (toks : List String) : Result := Id.run do
                   if t < t0 || t > t1 then
                     let r := fail st n "C04" s!"cosignature timestamp {t} outside the call window [{t0},{t1}]"
                     st := r.st; outs := outs ++ r.out
-          if faults == "" && ipost != .val rb then
+          if ipost != .val rb then
             let r := fail st n "C04" "read after accepted update does not return the bytes the update returned"
             st := r.st; outs := outs ++ r.out
         | _ =>
